@@ -64,11 +64,16 @@ async fn run_world(wi: u64, mut rng: Rng) -> anyhow::Result<Summary> {
         let src = match rng.below(4) { 0 => peers[0].clone(), 1 => peers[1].clone(), 2 => peers[2].clone(), _ => stranger.clone() };
         // timestamp classes (never within 1 s of a window edge: the clock may tick)
         let ts = match rng.below(10) { 0 => now0 - 298, 1 => now0 - 303, 2 => now0 + 28, 3 => now0 + 33, 4 => 0, 5 => u64::MAX, _ => now0 };
-        let topic = match rng.below(6) { 0 | 1 => "/rr/vp".to_string(), 2 => "/rr/".to_string(), 3 => "/x/test".to_string(), 4 => "".to_string(), _ => "/gossip/é".to_string() };
+        let topic = match rng.below(6) { 0 | 1 => "/rr/vp".to_string(), 2 => "/rr/".to_string(), 3 => "/x/test".to_string(), 4 => "".to_string(), _ => format!("/gossip/{}{}", "t".repeat(rng.below(70) as usize), "é€".repeat(rng.range(1, 20) as usize)) };
         // payload
         let live: Vec<usize> = (0..pending.len()).filter(|&i| !pending[i].2.is_finished()).collect();
         let data: Vec<u8> = if topic.starts_with("/rr/") && rng.chance(4, 5) {
             let (idv, _right) = if !live.is_empty() && rng.chance(3, 4) { let i = live[rng.below(live.len() as u64) as usize]; (pending[i].0.clone(), pending[i].1.clone()) }
+                                else if rng.chance(1, 3) {
+                                    // long ids with multi-byte characters at every small offset class (log truncation, length limits)
+                                    let pad = rng.range(0, 130) as usize;
+                                    (format!("{}{}{}", "x".repeat(pad), ["é", "€", "𝄞", "日本"][rng.below(4) as usize].repeat(rng.range(1, 40) as usize), rng.below(10)), String::new())
+                                }
                                 else { (format!("guess-{}", rng.below(1000)), String::new()) };
             let plen = rng.below(6) as usize; let env = Envelope { message_id: idv, is_response: rng.chance(3, 4), payload: rng.bytes(plen) };
             let mut e = postcard::to_stdvec(&env)?;
@@ -123,6 +128,28 @@ async fn run_world(wi: u64, mut rng: Rng) -> anyhow::Result<Summary> {
         sum.count(if delivered.is_some() { "obs:delivered" } else if !seen.is_empty() { "obs:event" } else { "obs:nothing" });
         sum.cases.insert(cid.to_string(), json!({"term": term, "nontrivial": true, "desc": {"kind": "dispatcher", "world": wi, "src": &src[..8], "frame_hex": hex::encode(&bytes[..bytes.len().min(96)]), "frame_len": bytes.len(), "observed": obs.chars().take(120).collect::<String>()}}));
         cid += 1;
+    }
+    // a hostile peer answers the node's own FIND_VALUE with 4096 bytes: nothing over 512 bytes may enter its store
+    {
+        use saorsa_core::dht_network_manager::{DhtNetworkOperation as Op, DhtNetworkResult as Res};
+        let hid = hex::encode(rng.bytes(32));
+        let haddr = "10.200.200.1:9000";
+        let beh: Behaviour = Arc::new(move |me, msg| match &msg.payload {
+            Op::FindValue { key } | Op::Get { key } => Reply::Result(Res::ValueFound { key: *key, value: vec![0x5Au8; 4096], source: me.to_string() }),
+            Op::FindNode { key } => Reply::Result(Res::NodesFound { key: *key, nodes: vec![] }),
+            Op::Leave => Reply::Result(Res::LeaveSuccess),
+            _ => Reply::Silent });
+        net.add_scripted(&hid, haddr, beh);
+        let _ = m.transport.connect_peer(haddr).await;
+        let mg = m.manager.clone(); let hid2 = hid.clone();
+        wait_until(|| { let mg = mg.clone(); let h = hid2.clone(); async move { mg.get_connected_peers().await.iter().any(|p| p.peer_id == h) } }, Duration::from_secs(3)).await;
+        let mut hk = dht_key_of(&hid); hk[31] ^= 1;
+        let _ = tokio::time::timeout(Duration::from_secs(30), m.manager.get(&hk)).await;
+        let held = m.manager.get_local(&hk).await.ok().flatten();
+        sum.count("hostile_oversize_value_probes");
+        if held.as_ref().map(|v| v.len() > 512).unwrap_or(false) {
+            sum.violation(cid, "a value over 512 bytes taken from a peer's FIND_VALUE reply entered the node's store", &[], json!({"held_len": held.map(|v| v.len())}));
+        }
     }
     // the node still works and retained nothing
     let v = m.manager.get_local(&key).await.ok().flatten();
